@@ -97,6 +97,13 @@ let parse_op (w : string) : Prog.op =
              | [o; b] -> Prog.PCallOnce (nat_of_int (int_of_string o), nat_of_int (int_of_string b))
              | _ -> failwith "bad co")
   | "ic" -> Prog.PIsCompleted (num_after w 2)
+  | "as" -> Prog.PASpawn (num_after w 2)
+  | "aw" -> Prog.PAwait (num_after w 2)
+  | "ab" -> Prog.PAbort (num_after w 2)
+  | "dh" -> Prog.PDetach (num_after w 2)
+  | "ay" -> Prog.PAYield
+  | "bo" -> Prog.PBlockOn (num_after w 2)
+  | "if" -> Prog.PIsFinished (num_after w 2)
   | _ ->
     if w.[0] = 'a' then
       (match String.split_on_char '.' w with
